@@ -219,7 +219,7 @@ def c19(r):
               "5-digit Taoist years: ParseLunar(RenderLunar(x)) = x, distinct dates print differently). Frames per civil year "
               "(%s): every day's ToYmd / ToYmdHms / String as code points, the lunar, Taoist and Buddhist renderings as rune "
               "sequences next to the numbers; TLC checks observed = canonical form, parse-back, order along the year and "
-              "distinctness within the year. Distinct non-trivial case = distinct civil day." %
+              "distinctness within the year and the last two months of the year before. Distinct non-trivial case = distinct civil day." %
               ("every year 1..9999" if thorough else "80 seeded + 21 boundary years"))
     r.build()
     r.mc("MC_Forms", "MC_Forms_t" if thorough else "MC_Forms", nocov=True)
